@@ -33,6 +33,14 @@ type Scenario struct {
 	ID     int    `json:"id"`
 	Mode   string `json:"mode"`
 	Cfg    string `json:"cfg"`
+	// Sess is the identity of the served session (nil: an initiated client session with a full
+	// address), Life what the application has done with it before / does with it besides the
+	// scenario's items ("" = "fresh": Serve is called once, right away; "closed": the
+	// application has called Close before Serve; "again": when Serve has returned it is called
+	// a second time; "unserved": Serve is never called - the helper runs, then the application
+	// closes the session and cancels)
+	Sess   *Sess  `json:"sess,omitempty"`
+	Life   string `json:"life,omitempty"`
 	Helper string `json:"helper,omitempty"`
 	// Setup is the number of leading items that are the setup of a table state
 	Setup int    `json:"setup"`
@@ -48,6 +56,9 @@ type Result struct {
 	Events []vt.Ev           `json:"events"`
 	Detail map[string]string `json:"detail"`
 	Bad    string            `json:"bad,omitempty"` // "PANIC" | "STALL" | "" (for the supervisor)
+	// the local address of the session the constructor returned: its class and its text
+	OAddr  string `json:"oaddr"`
+	OLocal string `json:"olocal"`
 }
 
 func useError(err error) (s string) {
@@ -92,16 +103,30 @@ func (r *runner) end() {
 		r.log(vt.Ev{"ev": "eof"})
 		if r.sc.Cut == nil {
 			// a whole scenario ends the way a peer ends a stream; a cut one just stops
-			r.e.conn.FeedString("</stream:stream>")
+			if r.e.sess.Kind == "ws" {
+				r.e.conn.FeedString(`<close xmlns="` + framingNS + `"/>`)
+			} else {
+				r.e.conn.FeedString("</stream:stream>")
+			}
 		}
 		r.e.conn.CloseIn()
 	}
 }
 
+// render is the text of a peer item on the session of the scenario: with the WebSocket
+// framing every top-level element is a document of its own and names its namespace.
+func (r *runner) render(it Item) string {
+	n := *it.Node
+	if r.e.sess.Kind == "ws" && n.K == "el" && n.NS == "" && !strings.Contains(n.N, ":") {
+		n.NS = r.e.sess.ns()
+	}
+	return n.String(r.e.sub)
+}
+
 // feed renders item i and hands it to the library; a cut item ends the input.
 func (r *runner) feed(i int) {
 	it := r.sc.Items[i]
-	b := it.Node.String(r.e.sub)
+	b := r.render(it)
 	cut := false
 	if r.sc.Cut != nil && r.sc.Cut.Item == i {
 		if r.sc.Cut.Off < len(b) {
@@ -236,13 +261,26 @@ func runScenario(sc Scenario) (res Result) {
 	defer func() { res.Detail["ms"] = fmt.Sprint(time.Since(t0).Milliseconds()) }()
 	r := &runner{sc: sc, detail: map[string]string{}}
 	res.Detail = r.detail
-	e, err := newEnv(sc.Cfg)
+	sess := defaultSess
+	if sc.Sess != nil {
+		sess = *sc.Sess
+	}
+	life := sc.Life
+	if life == "" {
+		life = "fresh"
+	}
+	e, err := newEnv(sc.Cfg, sess)
 	if err != nil {
 		r.detail["driver"] = err.Error()
 		res.Events = []vt.Ev{{"ev": "driver_error"}}
 		return res
 	}
 	r.e = e
+	// what the session really is: the trace specification compares the OBSERVED class of the
+	// local address with the one the generator means (a construction that did not produce it
+	// says nothing about the library)
+	// (reported with the reset line of the trace)
+	res.OAddr, res.OLocal = addrClass(e.s.LocalAddr()), e.s.LocalAddr().String()
 	e.replies, e.cut = sc.Items, sc.Cut
 	e.logFeed = func(i int, cut bool) { r.log(vt.Ev{"ev": "feed", "i": i + 1, "cut": cut}) }
 	r.ctx, r.stop = context.WithCancel(context.Background())
@@ -266,62 +304,134 @@ func runScenario(sc Scenario) (res Result) {
 		wmu.Unlock()
 	}
 
-	var serveErr error
-	var servePanic string
-	done := make(chan struct{})
-	go func() {
-		defer close(done)
-		defer func() {
-			if x := recover(); x != nil {
-				servePanic = fmt.Sprint(x) + "\n" + trimStack(stack())
+	// the application closes the session (Close of the output stream) under recover and a watchdog
+	localClose := func() {
+		out := "nil"
+		cdone := make(chan struct{})
+		go func() {
+			defer close(cdone)
+			defer func() {
+				if x := recover(); x != nil {
+					out = "PANIC"
+					r.detail["close"] = fmt.Sprint(x) + "\n" + trimStack(stack())
+				}
+			}()
+			if err := e.s.Close(); err != nil {
+				out = "error"
+				r.detail["close"] = useErrorSafe(err, r.detail)
 			}
 		}()
-		serveErr = e.s.Serve(e.m)
-	}()
+		select {
+		case <-cdone:
+		case <-time.After(stallAfter):
+			out = "STALL"
+			r.detail["close"] = "Close did not return; goroutines:\n" + blockedGoroutines()
+		}
+		r.log(vt.Ev{"ev": "close", "out": out})
+		if (out == "PANIC" || out == "STALL") && res.Bad == "" {
+			res.Bad = out
+		}
+	}
 
-	// Serve must return: the scripted peer always ends the input.
-	serveOut := ""
-	stalled := make(chan struct{})
-	go func() {
-		t := time.NewTicker(25 * time.Millisecond)
-		defer t.Stop()
-		for {
-			select {
-			case <-done:
-				return
-			case <-t.C:
-				wmu.Lock()
-				over := !inHarness && time.Since(since) > stallAfter
-				wmu.Unlock()
-				if over {
-					close(stalled)
+	// one call of Serve: it must return - the scripted peer always ends the input.  The call
+	// that follows the construction of the session at once is told by the reset line of the
+	// trace (lives "fresh" and "again"), every other one is an event.
+	nserve := 0
+	serveOnce := func() string {
+		nserve++
+		if nserve > 1 || (life != "fresh" && life != "again") {
+			r.log(vt.Ev{"ev": "serve"})
+		}
+		// what the k-th call of Serve returned is kept under "serve" (k = 1), "serve2", ...
+		key := "serve"
+		if nserve > 1 {
+			key = fmt.Sprintf("serve%d", nserve)
+		}
+		var serveErr error
+		var servePanic string
+		done := make(chan struct{})
+		wmu.Lock()
+		inHarness, since = false, time.Now()
+		wmu.Unlock()
+		go func() {
+			defer close(done)
+			defer func() {
+				if x := recover(); x != nil {
+					servePanic = fmt.Sprint(x) + "\n" + trimStack(stack())
+				}
+			}()
+			serveErr = e.s.Serve(e.m)
+		}()
+		serveOut := ""
+		stalled := make(chan struct{})
+		go func() {
+			t := time.NewTicker(25 * time.Millisecond)
+			defer t.Stop()
+			for {
+				select {
+				case <-done:
 					return
+				case <-t.C:
+					wmu.Lock()
+					over := !inHarness && time.Since(since) > stallAfter
+					wmu.Unlock()
+					if over {
+						close(stalled)
+						return
+					}
 				}
 			}
-		}
-	}()
-	select {
-	case <-done:
-		switch {
-		case servePanic != "":
-			serveOut = "PANIC"
-			r.detail["serve"] = servePanic
-		case serveErr != nil:
-			serveOut = "error"
-			r.detail["serve"] = useErrorSafe(serveErr, r.detail)
-			if r.detail["serve_err_panic"] != "" {
+		}()
+		select {
+		case <-done:
+			switch {
+			case servePanic != "":
 				serveOut = "PANIC"
+				r.detail[key] = servePanic
+			case serveErr != nil:
+				serveOut = "error"
+				r.detail[key] = useErrorSafe(serveErr, r.detail)
+				if r.detail["serve_err_panic"] != "" {
+					serveOut = "PANIC"
+				}
+			default:
+				serveOut = "nil"
 			}
-		default:
-			serveOut = "nil"
+		case <-stalled:
+			serveOut = "STALL"
+			r.detail[key] = "Serve did not return; goroutines:\n" + blockedGoroutines()
 		}
-	case <-stalled:
-		serveOut = "STALL"
-		r.detail["serve"] = "Serve did not return; goroutines:\n" + blockedGoroutines()
+		r.log(vt.Ev{"ev": "serve_ret", "out": serveOut, "k": nserve})
+		if (serveOut == "PANIC" || serveOut == "STALL") && res.Bad == "" {
+			res.Bad = serveOut
+		}
+		return serveOut
 	}
-	r.log(vt.Ev{"ev": "serve_ret", "out": serveOut})
-	if serveOut == "PANIC" || serveOut == "STALL" {
-		res.Bad = serveOut
+
+	switch life {
+	case "unserved":
+		// nobody serves the session: the helper is called, its request goes out, no answer is
+		// ever read; the application then closes the session and cancels (below)
+		if h, ok := helpers[sc.Helper]; ok && sc.Mode == "reply" {
+			r.log(vt.Ev{"ev": "app", "i": 0, "act": "helper", "loc": "?", "est": true})
+			c := e.start(sc.Helper, func() error { return h(r.ctx, e) })
+			r.mu.Lock()
+			r.calls = append(r.calls, c)
+			r.mu.Unlock()
+			e.waitCall(0, c, reqWait)
+		} else {
+			r.detail["driver"] = "an unserved scenario needs a helper"
+		}
+		localClose()
+	case "closed":
+		localClose()
+		serveOnce()
+	case "again":
+		if out := serveOnce(); out != "STALL" {
+			serveOnce()
+		}
+	default:
+		serveOnce()
 	}
 
 	// the callers still waiting are cancelled, as an application does when the session is gone
